@@ -304,8 +304,15 @@ def check_seq(c):
     kw = {"parallel": False} if not c["kind"].startswith("mc.") else {"max_workers": 1}
     if y0 is not None:
         kw["y0"] = dict(y0)
+    model = make_model(c["model"])
+    if c.get("warm"):
+        # the model has been used before the scan (its resolved values exist): evaluated and simulated once
+        from mxlpy import Simulator
+
+        model.get_args()
+        Simulator(model).simulate(0.5, steps=2).get_result()
     try:
-        sc = run_kind(c["kind"], make_model(c["model"]), df, **kw)
+        sc = run_kind(c["kind"], model, df, **kw)
     except Exception as exc:  # noqa: BLE001
         return outcome(False, "scan-raised", symptom=f"scan-raised:{type(exc).__name__}", nontrivial=nt, detail=f"{type(exc).__name__}: {str(exc)[:200]} | {txt}")
     bad = compare_rows(sc, c["kind"], c["model"], df, c["read"], c["view_first"], txt, nt, y0=y0)
@@ -462,6 +469,9 @@ def generate(tier):
                     cases.append({"family": "seq", "model": model, "table": tbl, "kind": kind, "rows": rows, "read": list(read), "view_first": vf})
         cases.append({"family": "seq", "model": model, "table": tbl, "kind": kind, "rows": 5, "read": [4, 0, 3, 1, 2], "view_first": "fluxes"})
         cases.append({"family": "seq", "model": model, "table": tbl, "kind": kind, "rows": 3, "read": [2, 0, 1], "view_first": "fluxes", "labels": ["c", "a", "b"]})
+    # a model that was already evaluated / simulated before it is scanned
+    for model, tbl, kind in it.product(("ia", "cons", "derived"), ("par", "init", "both"), seq_kinds + mc_kinds_early):
+        cases.append({"family": "seq", "model": model, "table": tbl, "kind": kind, "rows": 2, "read": [1, 0], "view_first": "fluxes", "warm": True})
     # the y0= argument: applied to the model first, the row's own values on top
     mc_kinds = ["mc.steady_state", "mc.time_course", "mc.protocol", "mc.protocol_time_course"]
     for kind, tbl, y0, model in it.product(seq_kinds + mc_kinds, ("par", "init", "both"), ("y", "xy"), ("ia", "cons")):
